@@ -96,3 +96,8 @@
 (assert (forall ((x Int)) (! (=> (and (<= 0 x) (< x 10000000000)) (and (= (len (dec10 x)) 10) (= (idx0 (dec10 x)) (- 1)))) :pattern ((dec10 x)))))
 ; at over zeros / idx0 of a NUL-free prefix followed by zeros
 (assert (forall ((s Bytes) (n Int)) (! (=> (and (<= 0 n) (<= n (len s))) (=> (= (idx0 s) (- 1)) (= (idx0 (take s n)) (- 1)))) :pattern ((idx0 (take s n))))))
+; drop composes (List.drop_drop); pattern on the nested form only
+(assert (forall ((s Bytes) (a Int) (b Int)) (! (=> (and (<= 0 a) (<= 0 b)) (= (drop (drop s a) b) (drop s (+ a b)))) :pattern ((drop (drop s a) b)))))
+; take / drop inside a block of zeros (List.replicate lemmas)
+(assert (forall ((n Int) (k Int)) (! (=> (and (<= 0 k) (<= k n)) (= (take (zeros n) k) (zeros k))) :pattern ((take (zeros n) k)))))
+(assert (forall ((n Int) (k Int)) (! (=> (and (<= 0 k) (<= k n)) (= (drop (zeros n) k) (zeros (- n k)))) :pattern ((drop (zeros n) k)))))
